@@ -32,7 +32,7 @@ ANCHORS = [
     "acnportal.acnsim.network.current:Current.__sub__",
     "acnportal.acnsim.network.current:Current.__mul__",
 ]
-REQUIRED = ["queries_over_thousands_of_periods", "op:add", "op:remove", "op:update", "op:update_rename", "op:register_refused", "op:register_refused_existing_id", "op:refused_add_unknown_station", "op:refused_remove_unknown_name", "op:refused_update_unknown_name", "subset_queries",
+REQUIRED = ["op:accumulate_then_scale_in_place", "queries_over_thousands_of_periods", "op:add", "op:remove", "op:update", "op:update_rename", "op:register_refused", "op:register_refused_existing_id", "op:refused_add_unknown_station", "op:refused_remove_unknown_name", "op:refused_update_unknown_name", "subset_queries",
             "tree:+", "tree:-", "tree:*left", "tree:*right", "tree:scalar_multiple_as_operand", "leaf:dict",
             "leaf:list", "leaf:str", "leaf:series", "leaf:tiny_coefficient"]
 BUDGET_S = {"quick": 200, "thorough": 2400}
@@ -167,7 +167,7 @@ def run_case(case, obs):
 
     nops = 0
     for step in range(case["ops"]):
-        op = rng.choice(["add", "add", "remove", "update", "register", "dup", "refused"])
+        op = rng.choice(["add", "add", "remove", "update", "register", "dup", "refused", "acc"])
         if op in ("remove", "update", "dup") and not model:
             op = "add"
         if op == "refused":
@@ -208,6 +208,30 @@ def run_case(case, obs):
             model[nm] = (m, lim)
             order.append(nm)
             obs.ev("op:add")
+        elif op == "acc":
+            # the accumulator pattern: total = Current(); total = total + part ...; the total is then rescaled IN PLACE (*=), and
+            # the parts are used again afterwards as constraints of their own - they must still be what they were built as
+            parts = [_tree(rng, ids, rng.randint(0, 1), obs, stats) for _ in range(rng.randint(1, 3))]
+            total = Current() if rng.random() < 0.5 else Current([])
+            mt = {}
+            for pc, pm in parts:
+                total = (total + pc) if rng.random() < 0.6 else (pc + total)
+                mt = {s_: mt.get(s_, 0) + pm.get(s_, 0) for s_ in set(mt) | set(pm)}
+            if total is None or not hasattr(total, "index"):
+                obs.violate("current_algebra_returned_non_current", f"accumulated sum evaluated to {type(total).__name__}", ops=log[-6:])
+                return
+            k_ = rng.choice([0.5, 2, -1, 0.25])
+            total *= k_
+            mt = {s_: k_ * v_ for s_, v_ in mt.items()}
+            obs.ev("op:accumulate_then_scale_in_place")
+            for c_, m_, tag_ in [(total, mt, "total")] + [(pc, pm, "part") for pc, pm in parts[:2]]:
+                nm = f"k{cnt}"
+                cnt += 1
+                lim = round(rng.uniform(5, 100), 4)
+                log.append(["add-" + tag_, nm, m_, lim])
+                net.add_constraint(c_, lim, nm)
+                model[nm] = (m_, lim)
+                order.append(nm)
         elif op == "dup":
             nm = rng.choice(order)
             c, m = _tree(rng, ids, 1, obs, stats)
